@@ -1510,6 +1510,12 @@ func (e *orderEngine) classifyCarried(l *mapLoop, phi *ssa.Phi, bodyEdges []ssa.
 					if isErrorType(v.Type()) {
 						continue
 					}
+					// the smallest (largest) entry: `if first == "" || k < best { best = k }` —
+					// the value that replaces the running one was compared with it by an
+					// ordering operator, so the result is the minimum whatever the order
+					if minMaxUpdate(v, phi, l) {
+						continue
+					}
 					if usedAfterLoop(l, phi) {
 						add(phi, "local %s takes an iteration-dependent value and is used after the loop (last/first visited entry wins)", phiName(phi))
 					}
@@ -2312,3 +2318,50 @@ type funcSummarySnapshot struct {
 
 // comparatorDepth bounds the descent of comparatorOrdersElements into named orderings.
 var comparatorDepth int
+
+// minMaxUpdate: inside the loop some ordering comparison (<, >, <=, >=) has the
+// new value v (or the value it was extracted from) on one side and the running
+// value of the carried variable on the other, and v reaches the variable only
+// through that comparison's block structure (it is an edge of the header phi or of
+// an inner phi feeding it). Strings and numbers only.
+func minMaxUpdate(v ssa.Value, phi *ssa.Phi, l *mapLoop) bool {
+	bt, ok := v.Type().Underlying().(*types.Basic)
+	if !ok || bt.Info()&(types.IsString|types.IsInteger|types.IsFloat) == 0 {
+		return false
+	}
+	// running value as seen in the loop: the header phi or inner phis of it
+	running := map[ssa.Value]bool{phi: true}
+	for changed := true; changed; {
+		changed = false
+		for b := range l.body {
+			for _, i := range b.Instrs {
+				if p2, ok := i.(*ssa.Phi); ok && !running[p2] {
+					for _, e := range p2.Edges {
+						if running[e] {
+							running[p2] = true
+							changed = true
+						}
+					}
+				}
+			}
+		}
+	}
+	found := false
+	for b := range l.body {
+		for _, i := range b.Instrs {
+			bin, ok := i.(*ssa.BinOp)
+			if !ok {
+				continue
+			}
+			switch bin.Op {
+			case token.LSS, token.GTR, token.LEQ, token.GEQ:
+			default:
+				continue
+			}
+			if (bin.X == v && running[bin.Y]) || (bin.Y == v && running[bin.X]) {
+				found = true
+			}
+		}
+	}
+	return found
+}
